@@ -20,6 +20,7 @@ import (
 
 	"verif/harness/internal/gen/fontgen"
 	"verif/harness/internal/mon"
+	"verif/harness/internal/ref/cmapref"
 )
 
 // C10: subsetting keeps every selected glyph intact and consistently re-indexed.
@@ -296,6 +297,19 @@ func runC10(c *mon.Ctx) {
 			}
 			co.Encoding = enc
 			k.Class(fmt.Sprintf("cff:encoding-%d-codes", 256-(k.Index/21)%3))
+		}
+		if f.CMapTable != nil && f.NumGlyphs() >= 3 && k.Index%8 == 5 {
+			// a byte encoding table (format 0) on the Windows platform, as
+			// symbol fonts have it: the library decodes it as it stands
+			var gids [256]byte
+			for i := 0; i < 20+r.IntN(60); i++ {
+				gids[0x20+r.IntN(0xE0)] = byte(1 + r.IntN(min(f.NumGlyphs(), 256)-1))
+			}
+			key := cmap.Key{PlatformID: 3, EncodingID: 0}
+			if _, taken := f.CMapTable[key]; !taken {
+				f.CMapTable[key] = cmapref.EncodeFormat0(0, &gids)
+				k.Class("cmap:format0-on-windows-platform")
+			}
 		}
 		// now and then a character map subtable in a format the library keeps
 		// but does not decode
@@ -913,7 +927,7 @@ func runC10(c *mon.Ctx) {
 		}
 		k.Class("cff-outlines-subset:" + info.Kind)
 	})
-	c.Require("list:all-codes-in-use,pairs-shuffled", "cff:encoding-256-codes", "cff:encoding-255-codes", "cmap-undecoded-subtable:format13", "cmap-undecoded-subtable:format10", "cmap-undecoded-subtable:format14", "cmap-undecoded-subtable:format0-mac-japanese", "callers-list-reused", "list:just-below-256", "list:ligature-chain-components-only", "kind=glyf", "kind=cff", "kind=cid", "cmap-compared", "encoding-compared", "kerning-compared", "gsub-rules-compared",
+	c.Require("cmap:format0-on-windows-platform", "list:all-codes-in-use,pairs-shuffled", "cff:encoding-256-codes", "cff:encoding-255-codes", "cmap-undecoded-subtable:format13", "cmap-undecoded-subtable:format10", "cmap-undecoded-subtable:format14", "cmap-undecoded-subtable:format0-mac-japanese", "callers-list-reused", "list:just-below-256", "list:ligature-chain-components-only", "kind=glyf", "kind=cff", "kind=cid", "cmap-compared", "encoding-compared", "kerning-compared", "gsub-rules-compared",
 		"written-and-read-back", "original-font-unchanged", "extras-appended:glyf", "cff-outlines-subset:cff", "cff-outlines-subset:cid")
 }
 
